@@ -19,7 +19,7 @@ def rebuild_for_replay(rec):
 def run(chk):
     exe = build()
     n = vf.NCPU
-    per = (GRID + n - 1) // n + chk.pick(3000, 70000)      # the whole grid + random long cases per shard
+    per = (GRID + n - 1) // n + chk.pick(3000, 1000000)      # the whole grid + random long cases per shard
     r = chk.run('asan', exe, per)
     chk.rule = ('case = one tuple of the three enumerated sets (strncpy/strncat: size 1..40 x source length 0..48 x destination prefix '
                 '0..size; substr: len 0..12 x idx -14..14 x cnt -14..14; in-place helpers: every string of length <= 6 over '
